@@ -277,3 +277,110 @@ def guards_of(node, fnode):
 
 def _contains(stmts, node):
     return any(node is s for s in stmts)
+
+
+# ------------------------------------------------------------- closures
+def closure(ctx, func, depth=3, include_nested=True, private_only=True):
+    """`func` together with the package helpers it calls (transitively, to a
+    small depth) and their nested functions: a block moved into a private
+    helper is still found by the rules.  private_only: helpers whose name
+    starts with '_' or that live in the same class."""
+    out, seen = [], set()
+
+    def add(f, d):
+        if f.qual in seen:
+            return
+        seen.add(f.qual)
+        out.append(f)
+        ctx.touch(f)
+        if include_nested:
+            for lst in f.nested.values():
+                for g in lst:
+                    add(g, d)
+        if d <= 0:
+            return
+        for c in calls_in(f.node, own=False):
+            fs, _d = ctx.proj.resolve_call(c, f)
+            for g in fs:
+                if g.module is not f.module:
+                    continue
+                if private_only and not (g.name.startswith("_") or (g.cls is not None and g.cls is f.cls)):
+                    continue
+                if g.name.startswith("__") and g.name.endswith("__"):
+                    continue
+                add(g, d - 1)
+    add(func, depth)
+    return out
+
+
+def walk_closure(funcs, types=None):
+    """(func, node) over the own bodies of the given functions."""
+    for f in funcs:
+        for n in walk_own(f.node):
+            if types is None or isinstance(n, types):
+                yield f, n
+
+
+def resolve_name(node, func):
+    """Follow `name = expr` (single assignment in func or its enclosing
+    functions) to the defining expression; other nodes are returned as is."""
+    seen = 0
+    while isinstance(node, ast.Name) and seen < 6:
+        v = None
+        f = func
+        while f is not None and v is None:
+            if node.id in f.locals:
+                v = single_assignment(f.node, node.id)
+                break
+            f = f.parent
+        if v is None:
+            break
+        node = v
+        seen += 1
+    return node
+
+
+def flat_guards(node, fnode, func=None):
+    """Guards of a node as a sorted list of atom strings: nested ifs and
+    `and`-chains are flattened, `not` is kept as a prefix.  With `func` the
+    guards are the CFG path conditions (early exits count), plus enclosing
+    conditional expressions."""
+    out = []
+
+    def add(t, pol):
+        if isinstance(t, ast.BoolOp) and isinstance(t.op, ast.And) and pol:
+            for v in t.values:
+                add(v, True)
+        elif isinstance(t, ast.BoolOp) and isinstance(t.op, ast.Or) and not pol:
+            for v in t.values:
+                add(v, False)
+        elif isinstance(t, ast.UnaryOp) and isinstance(t.op, ast.Not):
+            add(t.operand, not pol)
+        else:
+            out.append(("" if pol else "not ") + norm(t))
+    if func is not None:
+        from .cfg import cfg_of
+        cfg = cfg_of(func)
+        cn = cfg.node_for(node)
+        conds = cfg.conditions(cn.id) if cn is not None else []
+        for t, pol in conds:
+            add(t, pol)
+        child = node
+        for p in parents(node):
+            if isinstance(p, ast.stmt):
+                break
+            if isinstance(p, ast.IfExp):
+                if child is p.body:
+                    add(p.test, True)
+                elif child is p.orelse:
+                    add(p.test, False)
+            elif isinstance(p, ast.BoolOp) and isinstance(p.op, ast.And):
+                for v in p.values:
+                    if v is child or any(child is x for x in ast.walk(v)):
+                        break
+                    add(v, True)
+            child = p
+        return sorted(set(out))
+    for t, pol in guards_of(node, fnode):
+        add(t, pol)
+    return sorted(out)
